@@ -21,6 +21,10 @@
 #define CAT(a, b) CAT_(a, b)
 #define LOG2I_NAME CAT(log2i_, SFX)
 #define GCD_NAME CAT(gcd_, SFX)
+#define GCD_INST(T) CAT(gcd_, T)      /* gcd<T>(..) written explicitly in the source */
+/* other instantiations are only declared here (no contract: a call to one is an arbitrary value for this proof) */
+uint8_t gcd_uint8_t(uint8_t, uint8_t); int8_t gcd_int8_t(int8_t, int8_t); uint16_t gcd_uint16_t(uint16_t, uint16_t); int16_t gcd_int16_t(int16_t, int16_t);
+uint32_t gcd_uint32_t(uint32_t, uint32_t); int32_t gcd_int32_t(int32_t, int32_t); uint64_t gcd_uint64_t(uint64_t, uint64_t); int64_t gcd_int64_t(int64_t, int64_t);
 #define RF_NAME CAT(reduce_fraction_, SFX)
 
 /* value of an IntT as a non-negative number of the wider type WT (only used on non-negative values); products of two
@@ -82,7 +86,40 @@ IntT g_a0, g_b0;    /* ghost: entry values of a and b (the loop overwrites the p
    (DIVS(d, r) ==> (DIVS(d, a) && DIVS(d, b))) && \
    (((r) != 0 && (d) == (UIntT)(r)) ==> (DIVS(d, a) && DIVS(d, b))))
 
+/* ---- width-independent proof of the divisibility clauses (16/32/64-bit instantiations), -DGCD_ABS -------------------
+ * No back end decides the non-linear induction step  d|a && d|b <=> d|b && d|(a mod b)  beyond 8 bits (measured), so for
+ * the wide instantiations "g_d divides x" is an ABSTRACT predicate D(x): its value for the current a, b and the remainder
+ * is carried by ghost booleans that move with the real assignments (ghost statements injected next to them by the
+ * extractor).  ASSUMED (number theory, listed in the evidence): D(0) holds; the Euclid step lemma for the remainder that
+ * the code has just computed.  PROVED for the code as written: D(result) <=> D(a) && D(b)  -- i.e. that the code really
+ * iterates remainders of the right operands, swaps them correctly, stops at b == 0, returns the right variable, and has
+ * no width-specific path that leaves this scheme.  The same text is proved without any assumption at 8 bits. */
+#if defined(GCD_ABS) && GCD_ABS
+_Bool g_Da, g_Db, g_Da0, g_Db0, g_Dm, g_Dres; IntT g_mval;
+_Bool nondet_gcd_bool(void);
+#define GCD_ABS_D(v) (*(&(v) == &a ? &g_Da : &(v) == &b ? &g_Db : &g_Dm))       /* the ghost that belongs to variable v */
+#define GCD_ABS_ENTRY g_Da0 = g_Da; g_Db0 = g_Db
+#define GCD_ABS_REM(m, x, y) g_Dm = nondet_gcd_bool() ? 1 : 0; g_mval = (m); \
+  __CPROVER_assume(&(x) == &a && &(y) == &b ? ((g_Da && g_Db) == (g_Db && g_Dm)) : 1);   /* Euclid step lemma, only for a % b */ \
+  __CPROVER_assume((m) == 0 ==> g_Dm)                                                     /* D(0) */
+#define GCD_ABS_MOVE(dst, src) GCD_ABS_D(dst) = GCD_ABS_D(src)
+#define GCD_ABS_RET(v) g_Dres = GCD_ABS_D(v)
+#define GCD_ABS_LOOP_ASSIGNS , g_Da, g_Db, g_Dm, g_mval
+#define GCD_ABS_INV ((g_Da0 && g_Db0) == (g_Da && g_Db)) && (b == 0 ==> g_Db) && (a == 0 ==> g_Da)
+#else
+#define GCD_ABS_ENTRY
+#define GCD_ABS_REM(m, x, y)
+#define GCD_ABS_MOVE(dst, src)
+#define GCD_ABS_RET(v)
+#define GCD_ABS_LOOP_ASSIGNS
+#define GCD_ABS_INV 1
+#endif
+
 IntT GCD_NAME(IntT a, IntT b)
+#if defined(GCD_ABS) && GCD_ABS
+__CPROVER_requires((a == 0 ==> g_Da) && (b == 0 ==> g_Db))                      /* D(0) for the arguments */
+__CPROVER_ensures((g_Dres != 0) == (g_Da0 && g_Db0))                                    /* D(result) <=> D(a) && D(b) */
+#endif
 __CPROVER_requires(NONNEG(a) && NONNEG(b) && g_d >= 1 && g_d2 >= 1)
 #if GCD_FULL && GCD_PART != 2
 __CPROVER_ensures(GCD_POST_DIV(g_d, __CPROVER_return_value))
@@ -94,7 +131,11 @@ __CPROVER_ensures(b == 0 ==> __CPROVER_return_value == a)
 __CPROVER_ensures(NONNEG(__CPROVER_return_value))
 __CPROVER_ensures((__CPROVER_return_value == 0) == (a == 0 && b == 0))
 __CPROVER_ensures(__CPROVER_return_value <= a || __CPROVER_return_value <= b)
+#if defined(GCD_ABS) && GCD_ABS
+__CPROVER_assigns(g_a0, g_b0, g_Da, g_Db, g_Da0, g_Db0, g_Dm, g_Dres, g_mval);
+#else
 __CPROVER_assigns(g_a0, g_b0);
+#endif
 
 /* ---------------------------------------------------------------- reduce_fraction */
 typedef struct { IntT first; IntT second; } PairT;      /* std::pair<IntT, IntT> */
